@@ -159,4 +159,241 @@ theorem Builder.deepCopy_content_of_no_defaults (b : Builder) (h : ∀ o ∈ b.o
   intro o ho
   simp [Opt.content, Opt.mapCells, h o ho]
 
+
+/-! ### "same target" bookkeeping for the struct / disjunction actions -/
+
+/-- `q` extends `p` -/
+def Path.hasPrefix (p q : Path) : Prop := ∃ r, q = p ++ r
+
+theorem fieldAssignment_path {f : Field} {a : Assignment} (h : fieldAssignment f = .ok a) :
+    a.path = pathFromStructField f := by
+  simp only [fieldAssignment] at h
+  cases hc : fieldConstraints f.ty with
+  | err e => simp [hc] at h
+  | panic s => simp [hc] at h
+  | ok cs =>
+    simp only [hc] at h
+    cases hw : withTypeConstraints { name := f.name, ty := f.ty } cs with
+    | err e => simp [hw] at h
+    | panic s => simp [hw] at h
+    | ok acs => simp [hw] at h; subst h; rfl
+
+theorem sfOptsLoop_spec (explicit : Option (List String)) (prefix_ : Path) : ∀ (fs : List Field) (os : List Opt),
+    sfOptsLoop explicit prefix_ fs = .ok os →
+    ∀ o ∈ os, ∃ a f, f ∈ fs ∧ o.name = f.name ∧ o.assignments = [a] ∧ a.path = prefix_ ++ pathFromStructField f
+  | [], os, h => by simp [sfOptsLoop] at h; subst h; simp
+  | f :: rest, os, h => by
+    simp only [sfOptsLoop] at h
+    split at h
+    · intro o ho
+      obtain ⟨a, g, hg, h1, h2, h3⟩ := sfOptsLoop_spec explicit prefix_ rest os h o ho
+      exact ⟨a, g, by simp [hg], h1, h2, h3⟩
+    · cases hfa : fieldAssignment f with
+      | err e => simp [hfa] at h
+      | panic s => simp [hfa] at h
+      | ok a =>
+        simp only [hfa] at h
+        cases hr : sfOptsLoop explicit prefix_ rest with
+        | err e => simp [hr] at h
+        | panic s => simp [hr] at h
+        | ok os' =>
+          simp [hr] at h; subst h
+          intro o ho
+          rcases List.mem_cons.1 ho with rfl | ho
+          · exact ⟨_, f, by simp, rfl, rfl, by simp [fieldAssignment_path hfa]⟩
+          · obtain ⟨a', g, hg, h1, h2, h3⟩ := sfOptsLoop_spec explicit prefix_ rest os' hr o ho
+            exact ⟨a', g, by simp [hg], h1, h2, h3⟩
+
+theorem sfArgsAssignment_path {prefix_ : Path} {method : String} {f' : Field} {newArg : Argument} {isConst : Bool}
+    {cs : List Constraint} {a : Assignment} (h : sfArgsAssignment prefix_ method f' newArg isConst cs = .ok a) :
+    a.path = prefix_ ++ pathFromStructField f' := by
+  unfold sfArgsAssignment at h
+  split at h
+  · split at h
+    · simp at h; subst h; rfl
+    · simp at h
+    · simp at h
+  · split at h
+    · simp at h; subst h; rfl
+    · simp at h
+    · simp at h
+
+theorem sfArgsStepTy_paths {prefix_ : Path} {method : String} {intoList : Bool} {f : Field} {ty : Ty}
+    {cs : List Constraint} {dflt : Option (List Val)} {acc acc' : SFAcc}
+    (h : sfArgsStepTy prefix_ method intoList f ty cs dflt acc = .ok acc')
+    (hacc : ∀ a ∈ acc.assignments, Path.hasPrefix prefix_ a.path) :
+    ∀ a ∈ acc'.assignments, Path.hasPrefix prefix_ a.path := by
+  unfold sfArgsStepTy at h
+  cases hic : isConcreteScalar ty with
+  | err e => simp [hic] at h
+  | panic s => simp [hic] at h
+  | ok isConst =>
+    simp only [hic] at h
+    by_cases hil : (!intoList) = true
+    · simp only [hil, if_true] at h
+      cases hsa : sfArgsAssignment prefix_ method { f with ty := ty } { name := f.name, ty := ty } isConst cs with
+      | err e => simp [hsa] at h
+      | panic s => simp [hsa] at h
+      | ok a =>
+        simp [hsa] at h; subst h
+        intro x hx
+        simp only [List.mem_append, List.mem_singleton] at hx
+        rcases hx with hx | rfl
+        · exact hacc x hx
+        · exact ⟨_, sfArgsAssignment_path hsa⟩
+    · simp only [hil] at h
+      cases hev : sfArgsEnvValue { f with ty := ty } { name := f.name, ty := ty } isConst with
+      | err e => simp [hev] at h
+      | panic s => simp [hev] at h
+      | ok ev => simp [hev] at h; subst h; exact hacc
+
+theorem sfArgsStep_paths {explicit : Option (List String)} {prefix_ : Path} {method : String} {intoList : Bool}
+    {defaults : List (String × Val)} {f : Field} {acc acc' : SFAcc}
+    (h : sfArgsStep explicit prefix_ method intoList defaults f acc = .ok acc')
+    (hacc : ∀ a ∈ acc.assignments, Path.hasPrefix prefix_ a.path) :
+    ∀ a ∈ acc'.assignments, Path.hasPrefix prefix_ a.path := by
+  unfold sfArgsStep at h
+  by_cases hex : (!explicitOK explicit f.name) = true
+  · simp [hex] at h; subst h; exact hacc
+  · simp only [hex] at h
+    cases hfc : fieldConstraints f.ty with
+    | err e => simp [hfc] at h
+    | panic s => simp [hfc] at h
+    | ok cs =>
+      simp only [hfc] at h
+      exact sfArgsStepTy_paths h hacc
+
+theorem sfArgsLoop_paths (explicit : Option (List String)) (prefix_ : Path) (method : String) (intoList : Bool)
+    (defaults : List (String × Val)) : ∀ (fs : List Field) (acc acc' : SFAcc),
+    sfArgsLoop explicit prefix_ method intoList defaults fs acc = .ok acc' →
+    (∀ a ∈ acc.assignments, Path.hasPrefix prefix_ a.path) →
+    ∀ a ∈ acc'.assignments, Path.hasPrefix prefix_ a.path
+  | [], acc, acc', h, hacc => by simp [sfArgsLoop] at h; subst h; exact hacc
+  | f :: rest, acc, acc', h, hacc => by
+    simp only [sfArgsLoop] at h
+    cases hs : sfArgsStep explicit prefix_ method intoList defaults f acc with
+    | err e => simp [hs] at h
+    | panic s => simp [hs] at h
+    | ok acc1 =>
+      simp only [hs] at h
+      exact sfArgsLoop_paths explicit prefix_ method intoList defaults rest acc1 acc' h (sfArgsStep_paths hs hacc)
+
+theorem replaceFirstArgAssignment_paths (n : String) (mk : Assignment → Assignment) (hmk : ∀ a, (mk a).path = a.path) :
+    ∀ l : List Assignment, (replaceFirstArgAssignment n mk l).map (·.path) = l.map (·.path)
+  | [] => rfl
+  | a :: rest => by
+    unfold replaceFirstArgAssignment
+    split
+    · split
+      · simp [hmk]
+      · simp [replaceFirstArgAssignment_paths n mk hmk rest]
+    · simp [replaceFirstArgAssignment_paths n mk hmk rest]
+
+theorem deepCopy_paths (o : Opt) : (Opt.deepCopy o).assignments.map (·.path) = o.assignments.map (·.path) := by
+  simp [Opt.deepCopy, Assignment.deepCopy, Assignment.mapCells, List.map_map, Function.comp_def]
+
+theorem disjunctionBranchOptions_paths (o : Opt) (idx : Nat) (target : Argument) : ∀ (brs : List Ty) (os : List Opt),
+    disjunctionBranchOptions o idx target brs = .ok os →
+    ∀ o' ∈ os, o'.assignments.map (·.path) = o.assignments.map (·.path)
+  | [], os, h => by simp [disjunctionBranchOptions] at h; subst h; simp
+  | br :: rest, os, h => by
+    simp only [disjunctionBranchOptions] at h
+    cases ht : typeName br with
+    | err e => simp [ht] at h
+    | panic s => simp [ht] at h
+    | ok tn =>
+      simp only [ht] at h
+      cases hr : disjunctionBranchOptions o idx target rest with
+      | err e => simp [hr] at h
+      | panic s => simp [hr] at h
+      | ok os' =>
+        simp [hr] at h; subst h
+        intro o' ho'
+        rcases List.mem_cons.1 ho' with rfl | ho'
+        · simp only
+          rw [replaceFirstArgAssignment_paths target.name _ (fun a => by simp [argumentAssignment]), deepCopy_paths]
+        · exact disjunctionBranchOptions_paths o idx target rest os' hr o' ho'
+
+theorem disjunctionStructOptions_paths (o : Opt) (idx : Nat) (target : Argument) (fs : List Field) :
+    ∀ o' ∈ disjunctionStructOptions o idx target fs, o'.assignments.map (·.path) = o.assignments.map (·.path) := by
+  intro o' ho'
+  simp only [disjunctionStructOptions, List.mem_map] at ho'
+  obtain ⟨f, _, rfl⟩ := ho'
+  simp only
+  rw [replaceFirstArgAssignment_paths target.name _ (fun a => by simp), deepCopy_paths]
+
+
+theorem disjunctionOnTarget_paths (ss : Schemas) (o : Opt) (idx : Nat) (target : Argument) (out : ActOut)
+    (h : disjunctionOnTarget ss o idx target = .ok out) :
+    ∀ o' ∈ out.opts, o'.assignments.map (·.path) = o.assignments.map (·.path) := by
+  unfold disjunctionOnTarget at h
+  by_cases hd : kindIs target.ty "disjunction" = true
+  · simp only [hd, if_true] at h
+    cases hty : target.ty with
+    | disj branches info m =>
+      simp only [hty] at h
+      cases hb : disjunctionBranchOptions o idx target branches with
+      | ok os => simp [hb] at h; subst h; exact disjunctionBranchOptions_paths o idx target branches os hb
+      | err e => simp [hb] at h
+      | panic s => simp [hb] at h
+    | _ => simp [hty] at h
+  · simp only [hd] at h
+    by_cases hr : kindIs target.ty "ref" = true
+    · simp only [hr, if_true] at h
+      cases hres : resolveO ss (fuelFor ss) target.ty with
+      | err e => simp [hres] at h
+      | panic s => simp [hres] at h
+      | ok r =>
+        simp only [hres] at h
+        by_cases hg : (!isStructGenFromDisj r) = true
+        · simp [hg, unchanged] at h; subst h; simp
+        · simp only [hg] at h
+          cases r with
+          | struct fs g gi m => simp at h; subst h; exact disjunctionStructOptions_paths o idx target fs
+          | _ => simp at h
+    · simp [hr, unchanged] at h; subst h; simp
+
+theorem sfArgsBuild_targets (explicit : Option (List String)) (o : Opt) (oldArgsRest : List Argument)
+    (asg0 : Assignment) (oldAsgRest : List Assignment) (fs : List Field) (out : ActOut)
+    (h : sfArgsBuild explicit o oldArgsRest asg0 oldAsgRest fs = .ok out) :
+    ∃ o', out.opts = [o'] ∧ o'.name = o.name ∧
+      ∀ a ∈ o'.assignments, Path.hasPrefix asg0.path a.path ∨ a ∈ oldAsgRest := by
+  unfold sfArgsBuild at h
+  cases hl : asg0.path.getLast? with
+  | none => simp [hl] at h
+  | some last =>
+    simp only [hl] at h
+    cases hloop : sfArgsLoop explicit asg0.path asg0.method (kindIs last.ty "array") (sfDefaults o) fs {} with
+    | err e => simp [hloop] at h
+    | panic s => simp [hloop] at h
+    | ok acc =>
+      simp only [hloop] at h
+      have hp := sfArgsLoop_paths explicit asg0.path asg0.method _ _ fs {} acc hloop (by simp)
+      cases hasm : sfArgsAssemble asg0 last (kindIs last.ty "array") acc with
+      | err e => simp [hasm] at h
+      | panic s => simp [hasm] at h
+      | ok asgs =>
+        simp [hasm] at h; subst h
+        have hasgs : ∀ a ∈ asgs, Path.hasPrefix asg0.path a.path := by
+          unfold sfArgsAssemble at hasm
+          by_cases hil : (!kindIs last.ty "array") = true
+          · simp [hil] at hasm; subst hasm; exact hp
+          · simp only [hil] at hasm
+            cases hty : last.ty with
+            | array elem m =>
+              simp [hty] at hasm; subst hasm
+              intro a ha
+              simp at ha; subst ha
+              exact ⟨[], by simp⟩
+            | _ => simp [hty] at hasm
+        refine ⟨_, rfl, rfl, ?_⟩
+        intro a ha
+        cases oldArgsRest with
+        | nil => exact .inl (hasgs a (by simpa using ha))
+        | cons x xs =>
+          have ha' : a ∈ asgs ++ oldAsgRest := by simpa using ha
+          rcases List.mem_append.1 ha' with ha' | ha'
+          · exact .inl (hasgs a ha')
+          · exact .inr ha'
+
 end Cog.Builder
